@@ -14,6 +14,7 @@ import (
 
 	"verifharness/dialects"
 	"verifharness/ref"
+	twincommon "verifharness/twin/common"
 	"verifharness/vh"
 )
 
@@ -69,6 +70,50 @@ type MessageBadEnumInt16 struct {
 
 func (*MessageBadEnumInt16) GetID() uint32 { return 60009 }
 
+// fields of defined types whose underlying kind the codec knows, without the enum tag (e.g. the tag was forgotten)
+type (
+	vfNamedU8  uint8
+	vfNamedStr string
+	vfNamedF32 float32
+)
+
+type MessageBadNamedEnum struct {
+	A common.MAV_MODE
+}
+
+func (*MessageBadNamedEnum) GetID() uint32 { return 60010 }
+
+type MessageBadNamedU8 struct {
+	A uint16
+	B vfNamedU8
+}
+
+func (*MessageBadNamedU8) GetID() uint32 { return 60011 }
+
+type MessageBadNamedString struct {
+	A vfNamedStr `mavlen:"5"`
+}
+
+func (*MessageBadNamedString) GetID() uint32 { return 60012 }
+
+type MessageBadNamedFloat struct {
+	A [3]vfNamedF32
+}
+
+func (*MessageBadNamedFloat) GetID() uint32 { return 60013 }
+
+type MessageBadPointer struct {
+	A *uint8
+}
+
+func (*MessageBadPointer) GetID() uint32 { return 60014 }
+
+type MessageBadNested struct {
+	A struct{ X uint8 }
+}
+
+func (*MessageBadNested) GetID() uint32 { return 60015 }
+
 type MessageFine struct {
 	A uint16
 	B string `mavlen:"4"`
@@ -85,6 +130,57 @@ func malformed() map[string]message.Message {
 		"name-not-Message": &BadName{}, "field-int": &MessageBadFieldType{}, "field-bool": &MessageBadFieldBool{}, "field-slice": &MessageBadFieldSlice{},
 		"enum-not-uint64": &MessageBadEnumGoType{}, "enum-on-float": &MessageBadEnumWire{}, "enum-unknown-type": &MessageBadEnumUnknown{},
 		"enum-on-int16": &MessageBadEnumInt16{}, "mavlen-not-a-number": &MessageBadMavlen{},
+		"field-named-enum-untagged": &MessageBadNamedEnum{}, "field-named-uint8": &MessageBadNamedU8{}, "field-named-string": &MessageBadNamedString{},
+		"field-named-float-array": &MessageBadNamedFloat{}, "field-pointer": &MessageBadPointer{}, "field-nested-struct": &MessageBadNested{},
+	}
+}
+
+func c17twinPackage(rep *vh.Report, r *vh.RNG) {
+	twins := []message.Message{&twincommon.MessageHeartbeat{}, &twincommon.MessageDebug{}, &twincommon.MessageParamRequestRead{}}
+	for round := 0; round < 2; round++ {
+		// the twin types together with shipped messages of other ids; second round: the shipped definitions of the same names again
+		msgs := append([]message.Message{}, twins...)
+		if round == 1 {
+			msgs = []message.Message{&common.MessageHeartbeat{}, &common.MessageDebug{}, &common.MessageParamRequestRead{}}
+		}
+		msgs = append(msgs, &common.MessageSysStatus{}, &common.MessageAttitude{})
+		rw := &dialect.ReadWriter{Dialect: &dialect.Dialect{Version: 3, Messages: msgs}}
+		err, p := safeInit(rw)
+		if p != nil || err != nil {
+			rep.Violation("dialect=twin what=init", fmt.Sprintf("a well-formed dialect whose package and message names coincide with shipped ones was not initialised: %v %v", err, p), nil)
+			return
+		}
+		for _, m := range msgs[:3] {
+			rep.Eval(1)
+			rep.Count("twin_package_lookups", 1)
+			typ := reflect.TypeOf(m).Elem()
+			lay, lerr := ref.LayoutOf(typ)
+			if lerr != nil {
+				rep.HarnessError(lerr.Error())
+				return
+			}
+			codec := rw.GetMessage(m.GetID())
+			wit := map[string]interface{}{"type": typ.PkgPath() + "." + typ.Name(), "id": m.GetID(), "round": round}
+			if codec == nil {
+				rep.Violation("dialect=twin what=lookup", "GetMessage(id) returned nothing for a message of the dialect", wit)
+				continue
+			}
+			if codec.CRCExtra() != lay.CRCExtra {
+				rep.Violation("dialect=twin what=lookup", fmt.Sprintf("GetMessage(id) returned a codec with CRC_EXTRA %d; the definition of the dialect's own type gives %d", codec.CRCExtra(), lay.CRCExtra), wit)
+				continue
+			}
+			val := reflect.New(typ)
+			vh.FillMessage(r, lay, val, vh.ModeMixed)
+			raw := codec.Write(val.Interface().(message.Message), true)
+			if !bytes.Equal(raw.Payload, lay.Encode(val, true)) {
+				rep.Violation("dialect=twin what=lookup", "the codec returned for the id encodes the dialect's own type with another layout", wit)
+				continue
+			}
+			back, derr := codec.Read(raw, true)
+			if derr != nil || reflect.TypeOf(back) != reflect.TypeOf(m) {
+				rep.Violation("dialect=twin what=lookup", fmt.Sprintf("the codec returned for the id decodes into %T (%v)", back, derr), wit)
+			}
+		}
 	}
 }
 
@@ -314,6 +410,10 @@ func TestC17(t *testing.T) {
 	if len(out.Aliases) > 0 {
 		rep.Sample(map[string]interface{}{"kind": "alias", "decl": out.Aliases[0]})
 	}
+
+	// a user package named like a shipped one ("common") whose messages carry shipped names and ids with other definitions,
+	// used after (and next to) the shipped dialects in this process: lookups return the codec of *that* type
+	c17twinPackage(rep, r)
 
 	// rejection at Initialize
 	bad := malformed()
